@@ -161,11 +161,18 @@ class Gen:
                 cls = KEY_KD
         return ui, expect, cls, m
 
-    def case(self, pi, pr, honest=True, wrong_bit=None, kind="sampled", rmax=False):
+    def ediv(self):
+        """EDIV values drawn by the two sides: boundary values of the 16-bit field are frequent"""
+        r = self.rng
+        return [r.choice([0, 0xFFFF, 1, 0x8000]) if r.random() < 0.35 else r.randrange(0x10000) for _ in (0, 1)]
+
+    def case(self, pi, pr, honest=True, wrong_bit=None, kind="sampled", rmax=False, ediv=None, bv=None, mode="new"):
         ui, expect, cls, m = self.script(pi, pr, honest, wrong_bit)
-        c = {"i": pi, "r": pr, "ui": ui, "expect": expect, "expect_class": cls, "spec_method": m, "kind": kind}
+        c = {"i": pi, "r": pr, "ui": ui, "expect": expect, "expect_class": cls, "spec_method": m, "kind": kind,
+             "mode": mode, "ediv": ediv if ediv is not None else self.ediv(), "bv": bv or []}
         if rmax:
             c["rmax"] = True
+            c["ediv"] = [0xFFFF, 0xFFFF]
         return c
 
     def rest(self):
@@ -188,6 +195,9 @@ def gen_cases(ctx, g):
         w = json.load(open(os.path.join(cdir, fn)))
         c = dict(w["case"])
         c["kind"] = "corpus:" + fn
+        c.setdefault("mode", "new")
+        c.setdefault("ediv", [0x1234, 0x2345])
+        c.setdefault("bv", [])
         cases.append(c)
     # exhaustive over the method-selecting items of both sides (1600), the rest sampled
     reps = 3 if ctx.thorough else 1
@@ -232,6 +242,44 @@ def gen_cases(ctx, g):
     for m in (0, 3):
         a, b = rep[m]
         cases.append(g.case(mkparams(*a), mkparams(*b), kind="rand-max", rmax=True))
+    # boundary values of every distributed item: EDIV 0 / 0xFFFF, all-zero / all-FF RAND, LTK, IRK, CSRK
+    for m in (0, 1):
+        a, b = rep[m]
+        for ed in ([0, 0], [0xFFFF, 0xFFFF], [0, 0xFFFF], [0xFFFF, 0], [1, 0]):
+            for kd in ((7, 7), (1, 1)) if (ctx.thorough or m == 0) else ((7, 7),):
+                cases.append(g.case(mkparams(*a, kd=kd[0]), mkparams(*b, kd=kd[1]), kind="boundary-ediv", ediv=ed))
+    for m in (0, 3):
+        a, b = rep[m]
+        for byte in (0, 255):
+            for purposes in ((1, 2, 3, 4), (2,), (1,), (3, 4)):
+                bv = [[sd, pp, byte] for sd in (0, 1) for pp in purposes]
+                mks = [rng.choice([16, 16, 7, 12]), rng.choice([16, 16, 7, 12])]
+                cases.append(g.case(mkparams(*a, mks=mks[0]), mkparams(*b, mks=mks[1]), kind="boundary-keys", bv=bv,
+                                    ediv=[rng.choice([0, 0xFFFF]), rng.choice([0, 0xFFFF])]))
+    # sequences of pairings through the SAME two stacks (same connection paired again / a second connection handle);
+    # procedures are strictly sequential
+    nseq = 240 if ctx.thorough else 36
+    for j in range(nseq):
+        length = 2 if (not ctx.thorough or rng.random() < 0.6) else 3
+        steps = []
+        newconn_used = False
+        for k in range(length):
+            if j < 14 and not ctx.thorough or rng.random() < 0.45:
+                m = [0, 1, 3, 4, 5, 0, 3][(j + 3 * k) % 7]
+                a, b = rep[m]
+            else:
+                a, b = rng.choice(COMBOS), rng.choice(COMBOS)
+                a, b = (a[0], 0, a[2], a[3]), (b[0], 0, b[2], b[3])
+            mode = "new"
+            if k > 0:
+                # at most one additional connection handle per pair of stacks
+                mode = "same" if (newconn_used or rng.random() < 0.5) else "new"
+                newconn_used = newconn_used or mode == "new"
+            steps.append(g.case(mkparams(*a, **g.rest()), mkparams(*b, **g.rest()), honest=(rng.random() < 0.8),
+                                kind="sequence", mode=mode))
+        first = steps[0]
+        first["more"] = steps[1:]
+        cases.append(first)
     # fully random parameter sets
     for _ in range(4000 if ctx.thorough else 150):
         a, b = rng.choice(COMBOS), rng.choice(COMBOS)
@@ -250,9 +298,17 @@ def run_pairs(cases, jobs=None):
     out = [None] * n
     def work(ch):
         k, cs = ch
-        r = C.run_impl("C14.py", {"mode": "pair", "cases": [{"i": c["i"], "r": c["r"], "ui": c["ui"], "rmax": c.get("rmax", False)} for c in cs]},
+        r = C.run_impl("C14.py", {"mode": "pair", "cases": [{"seq": [step_request(st) for st in steps_of(c)]} for c in cs]},
                        timeout=1500)
-        return k, r["results"]
+        out_ = []
+        for x in r["results"]:
+            if "runs" in x:
+                first = x["runs"][0]
+                first["more"] = x["runs"][1:]
+                out_.append(first)
+            else:
+                out_.append(x)
+        return k, out_
     with concurrent.futures.ThreadPoolExecutor(max_workers=jobs) as ex:
         for k, rs in ex.map(work, chunks):
             for j, r in enumerate(rs):
@@ -260,9 +316,26 @@ def run_pairs(cases, jobs=None):
     return out
 
 
+def steps_of(c):
+    return [c] + list(c.get("more", []))
+
+
+def runs_of(r):
+    return [r] + list(r.get("more", []))
+
+
+def step_request(st):
+    return {"mode": st.get("mode", "new"), "i": st["i"], "r": st["r"], "ui": st["ui"], "rmax": st.get("rmax", False),
+            "ediv": st.get("ediv"), "bv": st.get("bv", [])}
+
+
 def public_case(c):
-    return {k: c[k] for k in ("i", "r", "ui", "expect", "expect_class", "spec_method", "kind") if k in c} | \
-           ({"rmax": True} if c.get("rmax") else {})
+    d = {k: c[k] for k in ("i", "r", "ui", "expect", "expect_class", "spec_method", "kind", "mode", "ediv", "bv") if k in c}
+    if c.get("rmax"):
+        d["rmax"] = True
+    if c.get("more"):
+        d["more"] = [public_case(x) for x in c["more"]]
+    return d
 
 
 # ---------------------------------------------------------------------------
@@ -353,49 +426,64 @@ def run(ctx):
     results = f_pairs.result()
     pool.shutdown()
     ctx.log("stage B: implementation runs done")
-    ctx.cov["evaluations"] = len(rows) + len(table["pins"]) + len(cases)
-    ctx.cov["traces_validated_against_impl"] = len(cases)
+    ctx.cov["evaluations"] = len(rows) + len(table["pins"]) + sum(len(steps_of(c)) for c in cases)
+    ctx.cov["traces_validated_against_impl"] = sum(len(steps_of(c)) for c in cases)
 
     nviol, viol_idx, per_what = 0, [], {}
     dist = {"outcomes": {}, "methods": {}, "kinds": {}, "pdus_sent": {}, "exceptions": {}}
-    for i, (c, r) in enumerate(zip(cases, results)):
-        if r is None or "driver_error" in r:
-            raise C.CheckBroken("impl driver failed on case %d: %r" % (i, r))
-        vs = U.oracle(c, r, c.get("expect"))
-        o = "%s/%s" % (U.outcome(r["sides"][0]), U.outcome(r["sides"][1]))
-        dist["outcomes"][o] = dist["outcomes"].get(o, 0) + 1
-        dist["methods"][str(c.get("spec_method"))] = dist["methods"].get(str(c.get("spec_method")), 0) + 1
-        kd = c["kind"].split(":")[0]
+    nsteps = 0
+    for i, (c0, r0) in enumerate(zip(cases, results)):
+        if r0 is None or "driver_error" in r0:
+            raise C.CheckBroken("impl driver failed on case %d: %r" % (i, r0))
+        kd = c0["kind"].split(":")[0]
         dist["kinds"][kd] = dist["kinds"].get(kd, 0) + 1
-        for s in r["sides"]:
-            for op in s["trace"]:
-                dist["pdus_sent"][str(op)] = dist["pdus_sent"].get(str(op), 0) + 1
-            for e in s["exc"]:
-                k = e["cls"] + "@" + e["where"]
-                dist["exceptions"][k] = dist["exceptions"].get(k, 0) + 1
-        for what, key, exp, obs in vs:
-            if key is not None and key in ctx.kf:
-                ctx.violation(what, dict(public_case(c), op="pair"), key=key, expected=exp, observed=obs)
-                continue
-            nviol += 1
-            viol_idx.append(i)
-            per_what[what] = per_what.get(what, 0) + 1
-            if per_what[what] <= 3 and len(ctx.violations) < 15:      # a few replays per class of failure are enough
-                ctx.violation(what, dict(public_case(c), op="pair"), key=key, expected=exp, observed=obs)
-            break       # one replay per failing case
-    ctx.log("oracle: %d cases, %d violating, known findings hit: %s" % (len(cases), nviol, sorted(ctx.known_hits)))
+        failed_case = False
+        for stepno, (c, r) in enumerate(zip(steps_of(c0), runs_of(r0))):
+            nsteps += 1
+            vs = U.oracle(c, r, c.get("expect"))
+            o = "%s/%s" % (U.outcome(r["sides"][0]), U.outcome(r["sides"][1]))
+            dist["outcomes"][o] = dist["outcomes"].get(o, 0) + 1
+            dist["methods"][str(c.get("spec_method"))] = dist["methods"].get(str(c.get("spec_method")), 0) + 1
+            if stepno:
+                mk = "step%d:%s" % (stepno + 1, c.get("mode"))
+                dist.setdefault("sequence_steps", {})[mk] = dist.setdefault("sequence_steps", {}).get(mk, 0) + 1
+            for s_ in r["sides"]:
+                for op in s_["trace"]:
+                    dist["pdus_sent"][str(op)] = dist["pdus_sent"].get(str(op), 0) + 1
+                for e in s_["exc"]:
+                    k = e["cls"] + "@" + e["where"]
+                    dist["exceptions"][k] = dist["exceptions"].get(k, 0) + 1
+            for what, key, exp, obs in vs:
+                payload = dict(public_case(c0), op="pair", failing_step=stepno + 1)
+                if stepno:
+                    what = "procedure %d of a sequence through the same stacks (%s connection): %s" % (
+                        stepno + 1, "same" if c.get("mode") == "same" else "new", what)
+                if key is not None and key in ctx.kf:
+                    ctx.violation(what, payload, key=key, expected=exp, observed=obs)
+                    continue
+                if not failed_case:
+                    nviol += 1
+                    viol_idx.append(i)
+                    failed_case = True
+                    wk = what if not stepno else what.split(": ", 1)[1] + " [later procedure of a sequence]"
+                    per_what[wk] = per_what.get(wk, 0) + 1
+                    if per_what[wk] <= 3 and len(ctx.violations) < 15:      # a few replays per class of failure are enough
+                        ctx.violation(what, payload, key=key, expected=exp, observed=obs)
+                break       # one replay per failing case
+    ctx.log("oracle: %d cases (%d pairing procedures), %d violating, known findings hit: %s" % (len(cases), nsteps, nviol, sorted(ctx.known_hits)))
 
     # ---- correspondence model <-> implementation (inside Coq) -----------------
     pre = "From Whad Require Import C14.Base C14.GenTable C14.Model.\nOpen Scope N_scope."
-    terms = [U.ccase(c, r) for c, r in zip(cases, results)]
-    bad, logs = C.run_cases(PID, "pair", pre, "case_t", terms, "check_pair", shard=150, max_chars=350000)
+    terms = [clist(["(%s, %s)" % ("SameConn" if c.get("mode") == "same" else "NewConn", U.ccase(c, r))
+                    for c, r in zip(steps_of(c0), runs_of(r0))]) for c0, r0 in zip(cases, results)]
+    bad, logs = C.run_cases(PID, "pair", pre, "list (mode * case_t)", terms, "check_seq", shard=150, max_chars=350000)
     ctx.notes += logs[:4]
     ctx.log("correspondence: %d cases, %d bad" % (len(terms), len(bad)))
     first_bad = None
     if bad:
         i = bad[0]
         try:
-            diff = C.coq_eval(PID, "diff", pre, ["pair_diff %s" % terms[i]])[0]
+            diff = C.coq_eval(PID, "diff", pre, ["seq_diff 0 true st_init st_init %s" % terms[i]])[0]
         except C.CheckBroken as e:      # noqa
             diff = "?"
         first_bad = {"case": public_case(cases[i]), "differing_components": diff,
@@ -405,7 +493,8 @@ def run(ctx):
         ctx.log("first disagreeing case:", json.dumps(first_bad)[:600])
 
     # ---- coverage ----------------------------------------------------------------
-    nontrivial = [[c["i"], c["r"], c["ui"]] for c, r in zip(cases, results) if r["nmsg"] > 4]
+    nontrivial = [[[st["i"], st["r"], st["ui"], st.get("mode"), st.get("ediv"), st.get("bv")] for st in steps_of(c)]
+                  for c, r in zip(cases, results) if r["nmsg"] > 4]
     ctx.cov["distinct_nontrivial"] = C.distinct_count(nontrivial) + C.distinct_count(rows)
     ctx.cov["rule"] = ("stage A: the full product 40x40 of (lesc, oob, mitm, iocap) per side, exhaustive. Stage B: the same product exhaustive "
                        "(x%d) with bonding / key size 7..16 / 2^4 distribution flags / scripted user sampled, plus sweeps of distribution flags, key sizes, "
@@ -470,7 +559,14 @@ def replay(payload):
         b = [case["responder"][k] for k in ("lesc", "oob", "mitm", "iocap")]
         print("implementation now selects:", [v for x, y, v in t["rows"] if x == a and y == b])
         return 0
-    r = C.run_impl("C14.py", {"mode": "pair", "cases": [{"i": case["i"], "r": case["r"], "ui": case["ui"], "rmax": case.get("rmax", False)}]})["results"][0]
+    rr = C.run_impl("C14.py", {"mode": "pair", "cases": [{"seq": [step_request(st) for st in steps_of(case)]}]})["results"][0]["runs"]
+    for stepno, (st, r) in enumerate(zip(steps_of(case), rr)):
+        print("--- procedure %d (%s)" % (stepno + 1, st.get("mode", "new")))
+        replay_one(st, r)
+    return 0
+
+
+def replay_one(case, r):
     print("implementation now:", json.dumps({"outcomes": [U.outcome(s) for s in r["sides"]], "states": [s["state"] for s in r["sides"]],
                                               "fail": [s["fail"] for s in r["sides"]], "exc": [s["exc"] for s in r["sides"]],
                                               "method": [s["method"] for s in r["sides"]], "pdus": r["nmsg"],
